@@ -8,6 +8,7 @@ import (
 	"path/filepath"
 	"sort"
 	"strings"
+	"syscall"
 	"time"
 
 	"github.com/akrylysov/pogreb/fs"
@@ -315,6 +316,41 @@ type inode struct {
 	data  []byte
 	open  int
 	nlink int
+	// virt, when set, makes the file's content procedural (C19: a segment larger than 2 GiB without
+	// holding it in memory). Reads are served by virt.at, Truncate shortens it, writes are refused.
+	virt *virtContent
+}
+
+type virtContent struct {
+	length int64
+	at     func(off int64, p []byte) // fills p with the bytes at [off, off+len(p)), all inside length
+}
+
+func (in *inode) size() int64 {
+	if in.virt != nil {
+		return in.virt.length
+	}
+	return int64(len(in.data))
+}
+
+// SetVirtual replaces the content of an existing file by procedural content.
+func (s *SimFS) SetVirtual(name string, length int64, at func(off int64, p []byte)) {
+	in := s.files[filepath.Clean(name)]
+	if in == nil {
+		s.nextIno++
+		in = &inode{id: s.nextIno, nlink: 1}
+		s.files[filepath.Clean(name)] = in
+	}
+	in.data = nil
+	in.virt = &virtContent{length: length, at: at}
+}
+
+// FileSize returns the logical size of a file (-1 if it does not exist).
+func (s *SimFS) FileSize(name string) int64 {
+	if in := s.files[filepath.Clean(name)]; in != nil {
+		return in.size()
+	}
+	return -1
 }
 
 type FSStats struct {
@@ -340,6 +376,10 @@ type SimFS struct {
 	OnMutate func(e *JEntry)
 	// live slices handed out by Slice in alias mode are views into these buffers
 	handles int
+	// injected I/O error (short write reported as an error)
+	failNext    bool
+	failKeep    int
+	FaultsFired int
 }
 
 var _ fs.FileSystem = (*SimFS)(nil)
@@ -510,7 +550,7 @@ func (s *SimFS) Stat(name string) (os.FileInfo, error) {
 	if in == nil {
 		return nil, &os.PathError{Op: "stat", Path: name, Err: os.ErrNotExist}
 	}
-	return &simInfo{name: filepath.Base(name), size: int64(len(in.data))}, nil
+	return &simInfo{name: filepath.Base(name), size: in.size()}, nil
 }
 
 func (s *SimFS) Remove(name string) error {
@@ -566,7 +606,7 @@ func (s *SimFS) ReadDir(dir string) ([]os.DirEntry, error) {
 	}
 	var out []os.DirEntry
 	for _, n := range names {
-		out = append(out, &simInfo{name: filepath.Base(n), size: int64(len(s.files[n].data))})
+		out = append(out, &simInfo{name: filepath.Base(n), size: s.files[n].size()})
 	}
 	return out, nil
 }
@@ -679,7 +719,7 @@ func (f *simFile) noteRead(req int, off int64) {
 	if req > f.fs.Stats.MaxReadReq {
 		f.fs.Stats.MaxReadReq = req
 	}
-	remain := int64(len(f.in.data)) - off
+	remain := f.in.size() - off
 	if remain < 0 {
 		remain = 0
 	}
@@ -697,8 +737,17 @@ func (f *simFile) Read(p []byte) (int, error) {
 	if len(p) == 0 {
 		return 0, nil
 	}
-	if f.off >= int64(len(f.in.data)) {
+	if f.off >= f.in.size() {
 		return 0, io.EOF
+	}
+	if v := f.in.virt; v != nil {
+		n := len(p)
+		if int64(n) > v.length-f.off {
+			n = int(v.length - f.off)
+		}
+		v.at(f.off, p[:n])
+		f.off += int64(n)
+		return n, nil
 	}
 	n := copy(p, f.in.data[f.off:])
 	if f.fs.cfg.ShortReads && n > 1 && f.fs.rng.Intn(3) == 0 {
@@ -715,8 +764,19 @@ func (f *simFile) ReadAt(p []byte, off int64) (int, error) {
 		return 0, os.ErrClosed
 	}
 	f.noteRead(len(p), off)
-	if off >= int64(len(f.in.data)) {
+	if off >= f.in.size() {
 		return 0, io.EOF
+	}
+	if v := f.in.virt; v != nil {
+		n := len(p)
+		if int64(n) > v.length-off {
+			n = int(v.length - off)
+		}
+		v.at(off, p[:n])
+		if n < len(p) {
+			return n, io.EOF
+		}
+		return n, nil
 	}
 	n := copy(p, f.in.data[off:])
 	if n < len(p) {
@@ -736,10 +796,17 @@ func (f *simFile) Seek(offset int64, whence int) (int64, error) {
 	case io.SeekCurrent:
 		f.off += offset
 	case io.SeekEnd:
-		f.off = int64(len(f.in.data)) + offset
+		f.off = f.in.size() + offset
 	}
 	return f.off, nil
 }
+
+// ArmWriteFault makes the next record append to a segment file (a write at an offset past the header)
+// fail with ENOSPC after keep%len bytes of it were stored: a short write reported as an error.
+func (s *SimFS) ArmWriteFault(keep int) { s.failNext, s.failKeep = true, keep }
+
+// DisarmWriteFault cancels an armed fault that did not fire.
+func (s *SimFS) DisarmWriteFault() { s.failNext = false }
 
 func (f *simFile) write(p []byte, off int64, task int) (int, error) {
 	if f.closed {
@@ -747,6 +814,23 @@ func (f *simFile) write(p []byte, off int64, task int) (int, error) {
 	}
 	if !f.writable {
 		return 0, &os.PathError{Op: "write", Path: f.name, Err: os.ErrPermission}
+	}
+	if f.in.virt != nil {
+		return 0, &os.PathError{Op: "write", Path: f.name, Err: os.ErrInvalid}
+	}
+	if f.fs.failNext && off >= 512 && len(p) > 0 && strings.HasSuffix(f.name, ".psg") {
+		f.fs.failNext = false
+		f.fs.FaultsFired++
+		n := f.fs.failKeep % len(p)
+		if n > 0 {
+			end := off + int64(n)
+			if end > int64(len(f.in.data)) {
+				f.grow(end)
+			}
+			copy(f.in.data[off:end], p[:n])
+			f.fs.log(JEntry{Kind: JWrite, Ino: f.in.id, Name: f.name, Off: off, Data: append([]byte(nil), p[:n]...)}, task)
+		}
+		return n, &os.PathError{Op: "write", Path: f.name, Err: syscall.ENOSPC}
 	}
 	end := off + int64(len(p))
 	if end > int64(len(f.in.data)) {
@@ -785,7 +869,7 @@ func (f *simFile) Stat() (os.FileInfo, error) {
 	if f.closed {
 		return nil, os.ErrClosed
 	}
-	return &simInfo{name: filepath.Base(f.name), size: int64(len(f.in.data))}, nil
+	return &simInfo{name: filepath.Base(f.name), size: f.in.size()}, nil
 }
 
 func (f *simFile) Sync() error {
@@ -805,6 +889,14 @@ func (f *simFile) Truncate(size int64) error {
 	if !f.writable {
 		return &os.PathError{Op: "truncate", Path: f.name, Err: os.ErrPermission}
 	}
+	if v := f.in.virt; v != nil {
+		if size > v.length {
+			return &os.PathError{Op: "truncate", Path: f.name, Err: os.ErrInvalid}
+		}
+		v.length = size
+		f.fs.log(JEntry{Kind: JTruncate, Ino: f.in.id, Name: f.name, Size: size}, task)
+		return nil
+	}
 	if size > int64(len(f.in.data)) {
 		f.grow(size)
 	} else if f.fs.cfg.Alias && f.fs.cfg.Poison {
@@ -822,8 +914,13 @@ func (f *simFile) Slice(start, end int64) ([]byte, error) {
 	if f.closed {
 		return nil, os.ErrClosed
 	}
-	if end > int64(len(f.in.data)) {
+	if end > f.in.size() {
 		return nil, io.EOF
+	}
+	if v := f.in.virt; v != nil {
+		b := make([]byte, end-start)
+		v.at(start, b)
+		return b, nil
 	}
 	if f.fs.cfg.Alias {
 		// like fs.Mem and fs.OSMMap: the capacity of the view extends to the end of the buffer
